@@ -3,6 +3,8 @@ package handlers
 // C20 — auth, method-override and http.Handler wrappers behave as gates.
 
 import (
+	"strings"
+	"io"
 	"net/http"
 	"net/url"
 
@@ -193,9 +195,23 @@ func verifHarness_C20_methodOverride() {
 		verifAssume(hdr[i] < 0x80)
 	}
 	req := verifRequest(m, "/x")
-	req.Form = url.Values{}
-	if form != "" {
-		req.Form["_method"] = []string{form}
+	// the form value arrives url-encoded (already parsed into r.Form) or in a multipart body,
+	// which only Request.FormValue / ParseMultipartForm read
+	multipart := form != "" && verifChoice("carrier", 2) == 1
+	if multipart {
+		for i := 0; i < len(form); i++ {
+			verifAssume(verifAnd(form[i] != '\r', form[i] != '\n'))
+		}
+		if !verifSymbolic() {
+			req.Header["Content-Type"] = []string{"multipart/form-data; boundary=xYz"}
+			body := "--xYz\r\nContent-Disposition: form-data; name=\"_method\"\r\n\r\n" + form + "\r\n--xYz--\r\n"
+			req.Body = io.NopCloser(strings.NewReader(body))
+		}
+	} else {
+		req.Form = url.Values{}
+		if form != "" {
+			req.Form["_method"] = []string{form}
+		}
 	}
 	verifSetGhost("FormValue._method", form)
 	if hdr != "" {
